@@ -25,7 +25,7 @@ ASSUMPTIONS = [
 ]
 TRUSTED = ["correspondence harness harness/h_streams.c + tools/lib/vf.py (return codes incl. exact errno, decoder state after the call, "
            "octets consumed from the source, octets handed to the sink)"]
-DESIGN_REF = "DESIGN.md section 8, C12"
+DESIGN_REF = "DESIGN.md section 0.2 (as built) and section 8, C12"
 TECHNIQUE = "Lean 4 proofs by induction over payloads / streams on a transition-function model of the SLIP codec (round trip, transparency, bound, concatenation, resynchronisation in both modes, error pass-through) + differential correspondence on all short strings over the control alphabet"
 LEVEL_TEXT = ("Machine-checked proof over the Lean model of rfc1055.c: the encoder output is the RFC 1055 frame, contains the delimiter only as "
               "delimiter and is at most 2n+1 (2n+2) octets; one decoder call on an encoded frame followed by anything returns exactly the payload; "
